@@ -287,6 +287,13 @@ def family_setup(ctx, props, family="obj", n_random=6, tl2_random=False, corpus=
     return st
 
 
+def generator_side(ue):
+    """a RANDOM schema the kernel accepts but whose generated Go package does not generate/build: C14's subject (accepted schemas
+    build), listed in the evidence, not a violation of this property"""
+    name, e = ue
+    return name.startswith("rs") and str(e).startswith(("go build:", "tl2gen:"))
+
+
 def family_report(ctx, st, props, consts, corr_name, mism, bad, unit_errors, stats, samples, rule, trusted, assumptions, extra=None):
     """violations + evidence, common to the Obj checks.
     bad: (unit, op, go output, sig, text)   mism: (unit, op, model, go)   unit_errors: (unit, text)"""
@@ -307,7 +314,7 @@ def family_report(ctx, st, props, consts, corr_name, mism, bad, unit_errors, sta
             ctx.violation(f"{pid}:tools", "cannot build tools from /repo: " + trunc(st.berr, 600), {"error": st.berr}, no_input=True)
         if st.ref_err:
             ctx.violation(f"{pid}:model-build", "reference model does not build: " + trunc(st.ref_err, 600), {"error": st.ref_err}, no_input=True)
-        for name, e in unit_errors[:10]:
+        for name, e in [x for x in unit_errors if not generator_side(x)][:10]:
             ctx.violation(f"{pid}:unit:{name}", f"schema unit {name}: {trunc(e, 600)}", {"unit": name, "error": e}, no_input=True)
         for name, l, m, g in mism[:30]:
             ctx.violation(f"{pid}:corr:{name}:{trunc(l, 60)}", f"{corr_name} {name}: model and implementation differ on {trunc(l, 140)}: model={trunc(m, 90)} go={trunc(g, 90)}",
@@ -323,6 +330,7 @@ def family_report(ctx, st, props, consts, corr_name, mism, bad, unit_errors, sta
         "constants": {n: ("regenerated from source this run" if not st.cres.get(n) else "FAILED") for n in consts},
         "schemas": [{"name": u.name, "options": u.options, "instances": len(u.ins or []), "error": trunc(u.error, 200) if u.error else None} for u in st.units],
     }
+    cov["random_schemas_not_built"] = [{"unit": n, "error": trunc(e, 300)} for n, e in unit_errors if generator_side((n, e))]
     cov.update(extra or {})
     ctx.coverage.update(cov)
     ctx.assumptions += list(assumptions)
